@@ -38,12 +38,20 @@ SlotEs == [
   obj    |-> EProp(EObj(<<Pair(EStr(<<107>>), Vv)>>), <<107>>),
   lit    |-> EStr(<<113>>),
   nested |-> EIStr(<<Lit(<<60>>), SlotP(0, Vv), Lit(<<62>>)>>),
+  nested2 |-> EIStr(<<Lit(<<60>>), SlotP(0, EStr(<<119>>)), Lit(<<62>>)>>),       \* same shape, another expression
+  nested3 |-> EIStr(<<Lit(<<>>), SlotP(0, EIStr(<<Lit(<<91>>), SlotP(0, Vv), Lit(<<93>>)>>)), Lit(<<>>)>>),
+  bslash |-> EBin("+", Vv, EStr(<<92>>)),                                         \* a literal ending in an escaped backslash
+  quote  |-> EStr(<<34, 113, 34>>),                                               \* escaped quotes inside the slot
+  braces |-> EStr(<<123, 125>>),                                                  \* balanced braces inside a literal
+  dollar |-> EStr(<<36, 123, 125>>),                                              \* \$ and braces inside a literal
+  nl     |-> EStr(<<10>>),
   idx    |-> EIndex(EList(<<Vv>>), I(0)),
   int    |-> I(7),
   list   |-> EList(<<Vv>>),
   null   |-> ENull
 ]
-StringSlots == {"var", "cat", "call", "obj", "lit", "nested", "idx"}
+StringSlots == {"var", "cat", "call", "obj", "lit", "nested", "nested2", "nested3", "idx", "bslash", "quote",
+                "braces", "dollar", "nl"}
 
 \* the explicit concatenation the interpolated string must equal
 RECURSIVE ConcatOf(_)
@@ -71,8 +79,8 @@ C15Params ==
     \cup { <<"interp", l0, s1, l1, "-", "e">> : l0 \in DOMAIN Lits, s1 \in DOMAIN SlotEs, l1 \in DOMAIN Lits }
     \cup (IF MaxSlots >= 2
           THEN { <<"interp", l0, s1, l1, s2, l2>> :
-                   l0 \in {"e", "u2", "br"}, s1 \in DOMAIN SlotEs, l1 \in {"e", "u3", "qb", "u4"},
-                   s2 \in StringSlots \cup {"int"}, l2 \in {"e", "a", "u2"} }
+                   l0 \in {"e", "u2"}, s1 \in DOMAIN SlotEs, l1 \in {"e", "u3", "qb"},
+                   s2 \in StringSlots \cup {"int"}, l2 \in {"e", "a"} }
           ELSE {})
     \cup { <<"bytes", sx, "-", "-", "-", "-">> : sx \in DOMAIN StrPool }
     \cup { <<"scope", "-", "-", "-", "-", "-">> }
